@@ -219,7 +219,13 @@ def rebuild(v, rng, dict_order=False, set_order=False, seq_order=False):
     return v
 
 
-SAFE_NS = {"frozenset": frozenset, "set": set, "True": True, "False": False, "None": None}
+import datetime as _dt
+import re as _re
+
+SAFE_NS = {"frozenset": frozenset, "set": set, "True": True, "False": False, "None": None,
+           # out-of-model leaves used by the oracle-only streams (objects with neither __dict__ nor __slots__)
+           "object": object, "slice": slice, "re_compile": _re.compile, "timezone": _dt.timezone, "timedelta": _dt.timedelta,
+           "Ellipsis": Ellipsis, "complex": complex}
 
 
 def from_repr(s):
@@ -361,7 +367,7 @@ def oracle_value(ctx, v, o, rng, hasher=None):
         checks.append(("seq_order", rebuild(v, rng, seq_order=True, dict_order=True)))
     for kind, w in checks:
         h1, _ = impl_hash(w, o, hasher)
-        ctx.seen((kind, o, repr(values.canon(v)), repr(values.canon(w))), nontrivial=has_container(v))
+        ctx.seen((kind, o, expr_shared(v), expr_shared(w)), nontrivial=has_container(v))
         ctx.count("oracle:" + kind)
         if h1 != h0:
             ctx.fail(_case(kind, o, v, w), "hash changed by %s (%s mode): %r vs %r" % (kind, MODE_NAME.get(o, "opts"), v, w))
@@ -378,10 +384,99 @@ def oracle_shared(ctx, v, w, o, hasher=None):
     h1, _ = impl_hash(v, o, hasher, hashes=dhw)
     _, dhw2 = impl_hash(w, o, hasher)
     h2, _ = impl_hash(v, o, hasher, hashes=dhw2.hashes)
-    ctx.seen(("shared", o, repr(values.canon(v)), repr(values.canon(w))), nontrivial=has_container(v) or has_container(w))
+    ctx.seen(("shared", o, expr_shared(v), expr_shared(w)), nontrivial=has_container(v) or has_container(w))
     ctx.count("oracle:shared_table")
     if h1 != h0 or h2 != h0:
         ctx.fail(_case("shared_table", o, v, w), "hash of %r differs between a fresh table and the table left by hashing %r" % (v, w))
+
+
+# ---- option sweeps: keys that collapse under a normalising option ----------------
+
+def _opt(**k):
+    o = list(SET_MODE)
+    names = ["ignore_repetition", "ignore_iterable_order", "ignore_private_variables", "ignore_string_case",
+             "ignore_string_type_changes", "ignore_numeric_type_changes", "significant_digits"]
+    for n, v in k.items():
+        o[names.index(n)] = v
+    return tuple(o)
+
+
+KEY_OPTS = [_opt(ignore_string_type_changes=True), _opt(ignore_string_case=True),
+            _opt(ignore_string_case=True, ignore_string_type_changes=True), _opt(significant_digits=1),
+            _opt(significant_digits=0), _opt(significant_digits=2), _opt(significant_digits=1, ignore_repetition=False),
+            _opt(ignore_string_type_changes=True, ignore_repetition=False, ignore_iterable_order=False),
+            _opt(significant_digits=1, ignore_repetition=False, ignore_iterable_order=False)]
+KEY_FAMILY = ["a", b"a", "A", b"A", "Key", "key", b"key", "KEY", 1.01, 1.02, 1.04, 1.25, 2.345, 2.5, 2.54, 7.5, 3]
+OPT_FIXED = [
+    {'a': 1, b'a': 2}, {'x': [{'a': 1, b'a': 2}]}, {'Key': 'v1', 'key': 'v2', 'z': 0}, {1.01: 'a', 1.02: 'b'},
+    [{1.25: 'x'}, 1.25], ({'k': {2.345: None}}, [2.345], 'z'), {1.25: 'x'}, [1.25, 2.5], {1.25: 1.25, 'k': [1.25]},
+    {'A': {'a': 1, 'A': 2}, 'a': {b'a': 3}}, {2.5: [2.5, 2.54], 2.54: 2.5}, [{1.01: 1.02}, {1.02: 1.01}, 1.01],
+]
+
+
+def gen_key_value(rng, depth=2):
+    if depth <= 0 or rng.random() < 0.3:
+        return rng.choice(KEY_FAMILY + [None, "v1", "v2", 0])
+    if rng.random() < 0.55:
+        d = {}
+        for _ in range(rng.randint(1, 4)):
+            d[rng.choice(KEY_FAMILY)] = gen_key_value(rng, depth - 1)
+        return d
+    return [gen_key_value(rng, depth - 1) for _ in range(rng.randint(0, 3))]
+
+
+def oracle_options(ctx, rng, n):
+    """C06 under the key-normalising options: dicts whose keys collapse to one key hash ('a'/b'a', 'Key'/'key',
+    1.01/1.02 with significant_digits=1), the same float as key and as value - built in different orders, permuted,
+    and hashed on shared tables in both call orders"""
+    vals = list(OPT_FIXED) + [gen_key_value(rng, 3) for _ in range(n)]
+    vals = [v for v in vals if has_container(v)]
+    for v in vals:
+        for o in KEY_OPTS:
+            MODE_NAME.setdefault(o, "options")
+            ctx.count("oracle:option_sweep")
+            oracle_value(ctx, v, o, rng)
+    for i in range(len(vals)):
+        v, w = copy.deepcopy(vals[i]), copy.deepcopy(rng.choice(vals))
+        o = rng.choice(KEY_OPTS)
+        oracle_shared(ctx, v, w, o)
+        oracle_shared(ctx, w, v, o)
+
+
+# ---- out-of-model leaves: objects with neither __dict__ nor __slots__ -------------
+
+OPAQUE_EXPRS = [
+    "(lambda m: {'name': 'x', 'default': m, 'rows': [(1, m), (2, None)]})(object())",
+    "object()", "[object(), 1]", "{'s': object(), 't': object()}",
+    "[re_compile('a+b'), 'x']", "{'pat': re_compile('[0-9]+'), 'n': 1}",
+    "[slice(1, 5, 2), slice(None)]", "{'sl': slice(0, 3), 'v': [1, 2]}",
+    "[timezone(timedelta(hours=2)), 'z']", "{'tz': timezone(timedelta(0)), 'k': (1, 2)}",
+    "[Ellipsis, complex(1, 2), timedelta(seconds=5)]",
+]
+
+
+def oracle_opaque(ctx):
+    """deep copy clause on values holding objects that have neither __dict__ nor __slots__ (object() sentinels,
+    re.Pattern, slice, datetime.timezone): oracle only, such leaves are outside the model"""
+    for e in OPAQUE_EXPRS:
+        for o in MODES3:
+            check_opaque(ctx, e, o)
+
+
+def check_opaque(ctx, e, o):
+    v = from_repr(e)
+    c = copy.deepcopy(v)
+    w = from_repr(e)                       # built again from scratch: other addresses
+    try:
+        h0, h1, h2 = impl_hash(v, o)[0], impl_hash(c, o)[0], impl_hash(w, o)[0]
+    except Exception as ex:
+        ctx.fail({"kind": "raise", "opts": list(o), "value": e, "error": repr(ex)}, "DeepHash raised %r on %s" % (ex, e))
+        return
+    ctx.seen(("opaque", o, e), nontrivial=True)
+    ctx.count("oracle:copy_opaque")
+    if h1 != h0 or h2 != h0:
+        ctx.fail({"kind": "copy_opaque", "opts": list(o), "value": e},
+                 "hash changed by deep copy / rebuilding of a value holding an object without __dict__ and __slots__: %s" % e)
 
 
 # ---- repeated sub-objects: one object at several positions ------------------
@@ -571,6 +666,8 @@ def seed_worker():
     sys.path.insert(0, core.REPO)
     data = json.load(sys.stdin)
     from deepdiff import DeepHash
+    # shift the allocation pattern so that memory addresses differ between the worker processes
+    keep = [object() for _ in range((int(os.environ.get("PYTHONHASHSEED", "0") or 0) % 13) * 501)]
     out = []
     for r in data["reprs"]:
         v = from_repr(r)
@@ -581,13 +678,15 @@ def seed_worker():
                 row.append(DeepHash(v, **kw(o))[v])
             except Exception as e:
                 row.append("raise:" + repr(e))
-        order = repr(v)
+        order = repr(v) if "object" not in r else ""
         out.append([row, order])
     json.dump(out, sys.stdout)
 
 
-def oracle_seeds(ctx, vals, seeds):
-    reprs = [repr(v) for v in vals]
+def oracle_seeds(ctx, vals, seeds, exprs=()):
+    """vals: values (sent as repr); exprs: expressions evaluated in the worker (values that have no evaluable repr)"""
+    reprs = [repr(v) for v in vals] + list(exprs)
+    vals = list(vals) + [None] * len(exprs)
     payload = json.dumps({"reprs": reprs, "opts": [list(o) for o in MODES3]})
     procs = []
     for s in seeds:
@@ -618,8 +717,9 @@ def oracle_seeds(ctx, vals, seeds):
             hs = {results[s][i][0][j] for s in seeds}
             ctx.seen(("seed", o, r), nontrivial=True)
             if len(hs) > 1:
-                ctx.fail(_case("hash_seed", o, vals[i], extra={"seeds": list(seeds),
-                                                               "set_iteration_orders_differ": any(results[s][i][1] != base[i][1] for s in seeds)}),
+                cs = (_case("hash_seed", o, vals[i]) if vals[i] is not None else {"kind": "hash_seed", "opts": list(o), "value": r})
+                cs.update({"seeds": list(seeds), "set_iteration_orders_differ": vals[i] is not None and any(results[s][i][1] != base[i][1] for s in seeds)})
+                ctx.fail(cs,
                          "hash depends on PYTHONHASHSEED (%s mode): %s" % (MODE_NAME[o], r))
     ctx.count("oracle:hash_seed_values", len(reprs))
     ctx.note("hash_seed", {"seeds": list(seeds), "values": len(reprs), "values_whose_iteration_order_differs_between_seeds": reordered})
@@ -1001,6 +1101,8 @@ def run(ctx):
         w = rebuild(v, rng, dict_order=True, set_order=True)
         oracle_shared(ctx, w, v, rng.choice(MODES3))
     corr_members(ctx, 600 if ctx.thorough else 120)
+    oracle_options(ctx, rng, 120 if ctx.thorough else 25)
+    oracle_opaque(ctx)
     # --- repeated sub-objects (one object at several positions), long-lived tables, in-place edits
     sv = sharing_values(rng, 120 if ctx.thorough else 20)
     if not ctx.thorough:       # quick: every template once (cycling through the shared objects) + a seeded sample + the random ones
@@ -1018,7 +1120,7 @@ def run(ctx):
         if has_container(v):
             svals.append(v)
     svals += [{"a", "b", "c", "ab", "k1"}, {"a": {"x y", "b"}, "b": [frozenset({"a", "k2", "q"})]}, [{"a": 1, "b": 2, "c": 3}, {"zz", "q"}]]
-    oracle_seeds(ctx, svals, [1, 2, 3, 7, 11, 42, 1234, 99999])
+    oracle_seeds(ctx, svals, [1, 2, 3, 7, 11, 42, 1234, 99999], exprs=OPAQUE_EXPRS)
 
 
 def replay(ctx, data):
@@ -1029,6 +1131,11 @@ def replay(ctx, data):
     v = from_repr(case["value"])
     kind = case.get("kind")
     rng = random.Random(0)
+    MODE_NAME.setdefault(o, "options")
+    if kind == "copy_opaque":
+        check_opaque(ctx, case["value"], o)
+        print("replay: copy_opaque %s" % case["value"])
+        return
     if kind == "long_lived_table":
         o = tuple(case["opts"])
         res = long_lived_stream(case["stream_seed"], o, case.get("runs", 50), stop_at=case["index"])
@@ -1048,8 +1155,8 @@ def replay(ctx, data):
         oracle_shared(ctx, v, w, o)
         print("replay: shared_table value=%r other=%r opts=%r" % (v, w, o))
     elif kind == "hash_seed":
-        oracle_seeds(ctx, [v], case.get("seeds") or [1, 2, 3, 7, 11, 42, 1234, 99999])
-        print("replay: hash_seed value=%r" % (v,))
+        oracle_seeds(ctx, [], case.get("seeds") or [1, 2, 3, 7, 11, 42, 1234, 99999], exprs=[case["value"]])
+        print("replay: hash_seed value=%s" % case["value"])
     elif case.get("other"):
         w = from_repr(case["other"])
         h0 = impl_hash(v, o)[0]
